@@ -1426,6 +1426,7 @@ class JSExec(GoExec, SpecMixin, CallsMixin):
         envq = SpecEnv(st, rb, old)
         envq.binds_old = dict(self._pre_binds)
         envq.call_site = True
+        envq.assume_mode = True
         for cl in c.get('ensures'):
             try:
                 st.assume(self.sev_bool(envq, cl.expr))
